@@ -43,6 +43,40 @@ func encLiveResult(fn *ir.Function) string {
 	return strings.Join(parts, " ")
 }
 
+// encLiveProgNodes / encLiveResultNodes: as encLiveProg / encLiveResult, with the instruction list taken from fn.Nodes
+// directly (used for functions read back from inside pass.Compile).
+func encLiveProgNodes(fn *ir.Function) string {
+	is := c09NodeInstrs(fn)
+	idx := map[*ir.Instruction]int{}
+	for k, i := range is {
+		idx[i] = k
+	}
+	parts := []string{itoa(len(is))}
+	for _, i := range is {
+		parts = append(parts, encRegs(i.InputRegisters()), encRegs(i.OutputRegisters()))
+		parts = append(parts, itoa(len(i.Succ)))
+		for _, s := range i.Succ {
+			if s == nil {
+				parts = append(parts, "-1")
+			} else if k, ok := idx[s]; ok {
+				parts = append(parts, itoa(k))
+			} else {
+				parts = append(parts, "1000000")
+			}
+		}
+	}
+	return strings.Join(parts, " ")
+}
+
+func encLiveResultNodes(fn *ir.Function) string {
+	is := c09NodeInstrs(fn)
+	parts := []string{"ok", itoa(len(is))}
+	for _, i := range is {
+		parts = append(parts, encMaskSet(i.LiveIn), encMaskSet(i.LiveOut))
+	}
+	return strings.Join(parts, " ")
+}
+
 // prepLiveness runs LabelTarget, CFG and ZeroExtend32BitOutputs; returns false when the function is rejected.
 func prepLiveness(fn *ir.Function) bool {
 	err, _ := safely(func() error {
@@ -668,7 +702,24 @@ func init() {
 		}
 
 		// (b) function level
+		// The same function through the REAL pass.Compile (see c09Pressure): the live sets the pipeline computed, on the node
+		// list and the graph the pipeline's earlier passes left, judged like the direct route.
+		judgePipe := func(fn *ir.Function, kind string) {
+			c, err, panicked, _ := c09CompileUnderPressure(fn)
+			if c == nil || panicked || err == nil || !c09LivenessReached(c) {
+				stats["pipe_not_judged"]++
+				return
+			}
+			o.emit("accept-cfg "+encNodes(c)+" => "+encGraphNodes(c), "ok")
+			req := encLiveProgNodes(c)
+			resp := encLiveResultNodes(c)
+			o.emit("live "+req, resp)
+			o.emit("accept-live "+req+" => "+resp, "ok")
+			stats["pipe_judged"]++
+			stats["pipe_judged:"+kind]++
+		}
 		judge := func(fn *ir.Function, kind string) bool {
+			judgePipe(fn, kind)
 			if !prepLiveness(fn) {
 				stats[kind+"_cfg_rejected"]++
 				return false
